@@ -22,7 +22,7 @@ import (
 const c14L = 64
 
 var c14contents = map[string][]byte{
-	"A":  pattern("pos", 100, c14L),                                                              // 2 leaves
+	"A":  pattern("pos", 100, c14L),                                                             // 2 leaves
 	"A'": append(append([]byte(nil), pattern("pos", 64, c14L)...), []byte("different tail")...), // shares A's first leaf
 	"C":  []byte("small"),
 }
